@@ -11,6 +11,9 @@
      P lb rest | err [hdr body]
      M k {hdr body}* | err [frame]
      Q equip dev k {now t4 lb rest}* | step ; step ...   step = P<err> | A nd {frame}* nv {kind hdr}* c0..c5 err
+     RS k {c<hex> | s}* | {W<xx> | D hdr body}*          (receive side at the character level: bursts of
+                                                          characters and silences; what the receiver
+                                                          writes and delivers, in order)
      X equip dev hsmshdr body | wire                      (e2e: block transmissions seen on the line)
      Y equip dev k {gap_exceeds_t4 hdr body | R}* | nd {frame}*   (e2e: handler deliveries; R = line drop
                                                                 + reconnect: a new connection generation
@@ -127,6 +130,15 @@ let check _ln line =
         | _ -> failwith "bad event list"
     in
     cmp "assembler" (String.concat " ; " (go (int_of_string k) toks astate0 sstate0 [])) rhs
+  | "RS" :: _ :: toks ->
+    let ins = List.concat_map (fun t ->
+        if t = "s" then [Silence]
+        else List.map (fun b -> Ch b) (zb (String.sub t 1 (String.length t - 1)))) toks in
+    let (_, outs) = rrun RIdle ins in
+    let m = String.concat " " (List.map (fun o -> match o with
+        | Emit b -> Printf.sprintf "W%02x" (int_of_z b)
+        | Deliver b -> Printf.sprintf "D %s %s" (hz b.b_hdr) (hz b.b_body)) outs) in
+    cmp "receive stream" m rhs
   | ["X"; equip; dev; hh; body] ->
     let m = match split_frame (z_of_string dev) (b01 equip) (zb hh) (zb body) with
       | Ok bs -> hz (wire_of_blocks bs)
